@@ -151,7 +151,9 @@ def run(ctx):
                 'LEGEND IMAGECOLOR "#FF00AACC" OUTLINECOLOR "#0f0" END', 'SCALEBAR COLOR "#ff00aacc" BACKGROUNDCOLOR "#abc" END', 'QUERYMAP COLOR "#ff00aacc" END',
                 "MAP NAME \"it's\" SHAPEPATH 'say \"x\"' END", 'LAYER TYPE POINT FILTER ("[name]" = "x y") CLASSITEM "n" END',
                 "LAYER TYPE POINT CLASS EXPRESSION /^a.b$/ END CLASS EXPRESSION 'abc' END END", 'MAP WEB METADATA "a b" "c d" \'e\' \'f\' END END END',
-                'LAYER TYPE POINT PROCESSING "A=1 2" PROCESSING \'B=x\' END', 'MAP PROJECTION "init=epsg:4326" END CONFIG "K" "v w" END']
+                'LAYER TYPE POINT PROCESSING "A=1 2" PROCESSING \'B=x\' END', 'MAP PROJECTION "init=epsg:4326" END CONFIG "K" "v w" END',
+                # case-insensitive string comparisons keep their own quotes inside the dictionary value
+                'LAYER TYPE POINT FILTER "aitkin"i END', 'LAYER TYPE POINT CLASS EXPRESSION "a b"i END CLASS EXPRESSION \'c\'i END END', "LAYER TYPE POINT FILTERITEM 'n' FILTER 'x y'i END"]
     default_o = dict(PrettyPrinterDefaults)
     for t in directed:
         try:
@@ -168,6 +170,8 @@ def run(ctx):
                 o = dict(default_o, quote=q, **extra)
                 ctx.note_case(("directed", t, q, tuple(sorted(extra.items()))), nontrivial=True)
                 hunt_one(d, t, base, o)
+                if not extra:
+                    model_cases.append((o, d, t, base))      # the printer model is compared on the directed shapes too
     ctx.coverage["option_values_seen"] = len(seen_values)
     ctx.obligation("every value of every option exercised (9 indents, 2 spacers, 2 quotes, 3 newlines, 3 booleans)", len(seen_values) >= 9 + 2 + 2 + 3 + 6,
                    "%d values seen" % len(seen_values))
